@@ -134,6 +134,15 @@ func replayC12(r *Run, o *Obligation) *ReplayResult {
 		out, _ = r.runReplayTest(".", c12Harness, map[string]string{}, "TestVerifReplayC12")
 		r.replayOut["C12"] = out
 	}
+	if strings.HasPrefix(o.Name, "x_script_hoisting.") {
+		hout, ok := r.replayOut["C12hoist"]
+		if !ok {
+			hout, _ = r.runCorpusTest("x_script_hoisting", "TestVerifReplayC12Hoist")
+			r.replayOut["C12hoist"] = hout
+		}
+		okc, detail := replayVerdict(hout)
+		return &ReplayResult{Confirmed: okc, Input: "corpus template /verif/corpus/script-hoisting rendered by the real generated code and runtime", Detail: detail}
+	}
 	input := "the real registry functions on 8 class item forms and 4 script call sequences"
 	want := "[once]"
 	if strings.Contains(o.Name, "renderCSSItemsToBuilder") && strings.Contains(o.Name, "C12-1") {
